@@ -35,6 +35,25 @@ inductive Expect where
   | malformed
   deriving DecidableEq, Repr, Inhabited
 
+/-- what `inspect.signature(func)` says about the function of a `FuncBlock` (no positional-only
+    parameters): positional-or-keyword parameters and keyword-only parameters with "has a default",
+    `*args`, `**kwargs` -/
+structure FSig where
+  pos : List (String × Bool) := []
+  varargs : Bool := false
+  kwonly : List (String × Bool) := []
+  varkw : Bool := false
+  deriving DecidableEq, Repr, Inhabited
+
+/-- `inspect.Signature.bind(*args, **kwargs)` with `n` positional arguments and the keywords `kw`
+    does not raise TypeError -/
+def FSig.binds (f : FSig) (n : Nat) (kw : List String) : Bool :=
+  (decide (n ≤ f.pos.length) || f.varargs) &&
+  kw.all (fun k => !((f.pos.take n).any (·.1 == k)) &&
+    (((f.pos.drop n).any (·.1 == k)) || f.kwonly.any (·.1 == k) || f.varkw)) &&
+  (f.pos.drop n).all (fun p => p.2 || kw.contains p.1) &&
+  f.kwonly.all (fun p => p.2 || kw.contains p.1)
+
 /-- classes of combinational blocks that differ in `start()`:
     `Not` (signature `{'_': 1}`), `Override` (`{'input': None, 'override': None}`),
     `FuncBlock` with a function accepting anything (no constraint),
@@ -42,6 +61,7 @@ inductive Expect where
 inductive CCls where
   | not | ovr | any
   | sig (esig : List (String × Expect))
+  | func (f : FSig) (unpack : Bool)      -- `FuncBlock(func=…, unpack=…)`: `start()` binds the connected inputs
   deriving DecidableEq, Repr, Inhabited
 
 inductive BKind where
@@ -216,6 +236,59 @@ def checkSignature (c : Circ) (b : String) (esig : List (String × Expect)) : Ex
         | none => true) then .error .valueError
     else .ok ()
 
+/-- what the ValueError of `check_signature` says -/
+inductive SigDiag where
+  | names (unexpected missing : List String)   -- "unexpected: …, missing: …" (`setdiff_msg`)
+  | values (bad : List String)                 -- one message per input whose shape differs, in the order of `esig`
+  | malformed (name : String)                  -- "check_signature: input NAME: invalid value …"
+  deriving DecidableEq, Repr, Inhabited
+
+def keysOf {α : Type} (l : List (String × α)) : List String := l.map (·.1)
+
+/-- the first expectation that is neither `None`, a number nor a pair, met with a group -/
+def firstMalformed (bsig : List (String × Option Nat)) : List (String × Expect) → Option String
+  | [] => none
+  | (k, .malformed) :: rest =>
+    match bsig.lookup k with
+    | some (some _) => some k
+    | _ => firstMalformed bsig rest
+  | _ :: rest => firstMalformed bsig rest
+
+/-- `check_signature` after `input_signature()`: `none` = accepted, else what the error reports -/
+def sigDiagnosis (bsig : List (String × Option Nat)) (esig : List (String × Expect)) : Option SigDiag :=
+  if sigEq bsig esig then none
+  else if !sameKeys bsig esig then
+    some (.names ((keysOf bsig).filter fun k => !(keysOf esig).contains k)
+                 ((keysOf esig).filter fun k => !(keysOf bsig).contains k))
+  else
+    match firstMalformed bsig esig with
+    | some k => some (.malformed k)
+    | none =>
+      let bad := keysOf (esig.filter fun p =>
+        match bsig.lookup p.1 with
+        | some v => valueDiff p.2 v
+        | none => true)
+      if bad.isEmpty then none else some (.values bad)
+
+/-- `check_signature` with its diagnosis -/
+def checkSignatureD (c : Circ) (b : String) (esig : List (String × Expect)) :
+    Except Err (Option SigDiag) :=
+  match inputSignature c b with
+  | .error e => .error e
+  | .ok bsig => .ok (sigDiagnosis bsig esig)
+
+/-- `CBlock.__init_subclass__`: a combinational block class must not have SBlock add-ons -/
+def cblockSubclassAllowed (hasAddon : Bool) : Except Err Unit :=
+  if hasAddon then .error .typeError else .ok ()
+
+/-- `CBlock.InputGetter.__getitem__` (`self._in[name]`): the value of a single input, the tuple of
+    the values of a group; `out` = the output of a (resolved) input -/
+def inputGet {V : Type} (out : Ref → V) (c : Circ) (b name : String) : Except Err (V ⊕ List V) :=
+  match (c.inputs b).lookup name with
+  | none => .error .keyError
+  | some (.single r) => .ok (.inl (out r))
+  | some (.group rs) => .ok (.inr (rs.map out))
+
 /-! ### `_validate_blk` -/
 
 def findblock (c : Circ) (s : String) : Except Err (Circ × Ref) :=
@@ -361,17 +434,34 @@ def finalize (c : Circ) : Circ × Option Err :=
       | (c2, some e) => (c2, some e)
       | (c2, none) => ({ c2 with finalized := true }, none)
 
+/-- how `FuncBlock.calc_output` calls the function: the members of the unnamed group as positional
+    arguments (`unpack`) or the whole group as ONE argument, every other input by keyword -/
+def callShape (unpack : Bool) (ins : Inputs) : Nat × List String :=
+  let n := match ins.lookup "_" with
+    | some i => i.refs.length
+    | none => 0
+  (if unpack then n else 1, (ins.filter fun p => p.1 != "_").map (·.1))
+
+/-- `FuncBlock.start`: the function must be callable with the connected inputs -/
+def funcStart (f : FSig) (unpack : Bool) (ins : Inputs) : Except Err Unit :=
+  if f.binds (callShape unpack ins).1 (callShape unpack ins).2 then .ok () else .error .typeError
+
 def expectedSig : CCls → Option (List (String × Expect))
   | .not => some [("_", .exact 1)]
   | .ovr => some [("input", .single), ("override", .single)]
   | .any => none
   | .sig esig => some esig
+  | .func _ _ => none
 
 /-- `blk.start()` for all blocks in circuit order -/
 def startBlocks (c : Circ) : List String → Option Err
   | [] => none
   | b :: rest =>
     match c.kind b with
+    | some (.c (.func f unpack)) =>
+      match funcStart f unpack (c.inputs b) with
+      | .error e => some e
+      | .ok () => startBlocks c rest
     | some (.c cls) =>
       match expectedSig cls with
       | some esig =>
